@@ -132,7 +132,8 @@ CHECK = {
            '40-byte names differing at byte 33, a 64-byte name that is a prefix of a 100-byte one, two 255-byte names differing '
            'in the last byte): every subset in every declaration order (1956 types) x 12 lookup orders; and two LIVE class objects '
            'of one name (the static class and a run-time class object called "Pri" / "K10") asking in either order on 10 types '
-           '(5120 histories). Run-time class objects record size 0, one member or the full struct. cast = all ordered '
+           '(5120 histories). Run-time class objects record size 0, one member or the full struct. cast (besides the same-name block: 8 type objects - Int, String, Array, run-time types of those names, two live run-time '
+           'types both called RtSame - all 64 pairs, and Table/Tree of Int offered an object of the run-time "Int") = all ordered '
            'pairs of exported types, for a harness object of the type and for the type object itself. '
            'states = distinct (type, configuration) pairs reached (interned) in the deepest history family of the tier (pairs in '
            'quick, triples in thorough; shards partition the types) plus, for each run-time type object, 1 + the number of '
